@@ -109,6 +109,7 @@ def judge(ctx: Ctx, cases, metas, what: str):
                     {"clause": clause, "pass": m["pass"], "input": inp, "program": m["text"], "after": m.get("after", ""), "tag": m["tag"],
                      "nest_trip_counts_uneven": _nest_uneven(m["text"]),
                      "step_scaled_by_multiplication": "arith.muli %st, " in m.get("after", "") or "arith.muli %ost, " in m.get("after", ""),
+                     "affine_mod": " mod " in m["text"],
                      "unsigned_cmpi": any(f"cmpi {p}," in m["text"] for p in ("ult", "ule", "ugt", "uge"))}, clause=clause)
     ctx.coverage.update({"programs": len(cases), "disagreements_checked": sum(len(c["inputs"]) for c in cases), "machine_states": res.states,
                          "run_status_source/target": st})
